@@ -37,9 +37,10 @@ fn main() {
     let cases: u32 = std::env::args().nth(1).map(|s| s.parse().unwrap()).unwrap_or(100);
     let seed: u64 = std::env::args().nth(2).map(|s| s.parse().unwrap()).unwrap_or(1);
     // doc = list of (word, repeat)
-    let docs = prop::collection::vec(prop::collection::vec((prop_oneof![5 => 0u8..3, 2 => 3u8..6], 1usize..4), 0..5), 1..400);
+    let big = std::env::var("BIG").is_ok();
+    let docs = (if big { (1500usize..4000).boxed() } else { (1usize..400).boxed() }).prop_flat_map(|n| prop::collection::vec(prop::collection::vec((prop_oneof![5 => 0u8..3, 2 => 3u8..6], 1usize..4), 0..5), n..n + 1));
     let q = prop_oneof![(0u8..6).prop_map(Q::T), prop::collection::vec(0u8..6, 2..4).prop_map(Q::Or), prop::collection::vec(0u8..6, 2..4).prop_map(Q::And), (0u8..6, prop::collection::vec(0u8..6, 1..3)).prop_map(|(m, v)| Q::Mixed(m, v)), prop::collection::vec(0u8..6, 2..4).prop_map(Q::Boost)];
-    let strat = (docs, prop::collection::vec(0usize..400, 0..5), prop::collection::vec(0usize..400, 0..10), prop::collection::vec((q, 1usize..12, 0usize..6), 1..10), any::<bool>());
+    let strat = (docs, prop::collection::vec(0usize..4000, 0..5), prop::collection::vec(0usize..4000, 0..10), prop::collection::vec((q, 1usize..12, 0usize..6), 1..10), any::<bool>());
     let cfg = Config { cases, rng_seed: RngSeed::Fixed(seed), failure_persistence: None, max_shrink_iters: 2000, ..Config::default() };
     let mut runner = TestRunner::new(cfg);
     let n = std::cell::Cell::new(0usize);
